@@ -24,6 +24,10 @@ CHECKS = {
         technique='CCG schemas transcribed into TLA+ (GrammarEn.tla), laws model-checked by TLC; TLC-enumerated category pairs replayed into en.apply_binary_rules and every recorded application trace-validated against the schemas',
         text='MCGrammarEn checks that required results are justified etc. on all pairs of bounded universes and emits every pair; these pairs, the test triples, seen rules, inventory pairs and closure rounds are applied with the real rule function in worker processes and each result is accepted only if the schema its label names justifies it (RulesTrace.tla); results required by identical matched parts must be present',
         ref='6/C03'),
+    'C04': dict(
+        technique='Japanese CCG schemas and unary labelling transcribed into TLA+ (GrammarJa.tla), laws model-checked by TLC; TLC-enumerated pairs (incl. left spines to depth 3) replayed into ja.apply_binary_rules / apply_unary_rules and trace-validated',
+        text='MCGrammarJa checks that schema instances are justified, that a head-left or forward-slash crossed result never is, and emits every pair of its universes (non-modifier functors included, which the shipped inventories never exercise); these, the test triples, seen rules, inventory pairs, closure rounds and unary steps (shipped and synthetic left-hand sides) are run on the real rule functions and judged by RulesTrace.tla',
+        ref='6/C04'),
 }
 NOT_YET = 'check not built yet (build in progress; see DESIGN.md section 12)'
 
